@@ -329,3 +329,18 @@ def model_int(m, x, default=0):
 
 def model_bool(m, b):
     return z3.is_true(m.eval(b, model_completion=True))
+
+
+def raised_inside(e, root):
+    """True when exception `e` was raised by code whose file lies under `root` (the repository): such an exception
+    is behaviour of the code under test; anything else is a bug of the harness."""
+    import os
+    tb = e.__traceback__
+    last = None
+    while tb is not None:
+        last = tb
+        tb = tb.tb_next
+    if last is None:
+        return False
+    fn = os.path.realpath(last.tb_frame.f_code.co_filename)
+    return fn.startswith(os.path.realpath(root).rstrip('/') + '/')
